@@ -167,3 +167,56 @@ def gen_interp(seed, shard, n):
                 except Exception as ex:
                     ev["r"], ev["oc"] = BAD, _oc(ex)
                 yield ev
+
+
+def gen_conj(seed, shard, n):
+    """conjunction helpers on synthetic ephemerides whose RA/Dec differences are polynomials in n"""
+    from pymeeus.Angle import Angle
+    from pymeeus.Coordinates import planetary_conjunction, planet_star_conjunction
+    rng = random.Random("conj/%s/%s" % (seed, shard))
+    cnt = 0
+    while cnt < n:
+        half = rng.choice([1, 2, 3])
+        entries = 2 * half + 1
+        extra = rng.random() < 0.3                     # an even number of entries: the last one is dropped
+        star = rng.random() < 0.4
+        # RA difference: a line or parabola with exactly one sign change strictly inside (-half, half)
+        root = rng.randint(-4 * half + 1, 4 * half - 1)          # quarter units
+        slope = rng.choice([1, 2, 3, -1, -2, 5])
+        curv = rng.choice([0, 0, 1, -1]) if half >= 1 else 0
+        # pa(n) = (slope/4) (n - root/4) (1 + curv n / 16): keep the second factor positive on the table
+        # expand in quarter units: coefficients of 1, n, n^2 times 4
+        c0 = Fraction(-slope * root, 16)
+        c1 = Fraction(slope, 4) - Fraction(slope * root * curv, 256)
+        c2 = Fraction(slope * curv, 64)
+        coefs_a = [c0, c1, c2]
+        if any((c * 4).denominator != 1 for c in coefs_a):
+            curv = 0
+            coefs_a = [Fraction(-slope * root, 16) , Fraction(slope, 4), Fraction(0)]
+        if any((c * 4).denominator != 1 for c in coefs_a):
+            continue
+        coefs_d = [Fraction(rng.randint(-20, 20), 4), Fraction(rng.randint(-4, 4), 4), Fraction(rng.randint(-2, 2), 4)]
+        ns = list(range(-half, half + 1)) + ([half + 1] if extra else [])
+        a2 = [100.0 + 0.5 * k for k in ns]
+        d2 = [10.0 + 0.25 * k for k in ns]
+        if star:
+            a2 = [100.0 for _ in ns]
+            d2 = [10.0 for _ in ns]
+        a1 = [a2[i] + float(_poly(coefs_a, k)[0]) for i, k in enumerate(ns)]
+        d1 = [d2[i] + float(_poly(coefs_d, k)[0]) for i, k in enumerate(ns)]
+        A1, D1 = [Angle(v) for v in a1], [Angle(v) for v in d1]
+        A2, D2 = [Angle(v) for v in a2], [Angle(v) for v in d2]
+        ev = {"k": "conj", "half": half, "star": 1 if star else 0, "even": 1 if extra else 0,
+              "pa": [int(c * 4) for c in coefs_a], "pd": [int(c * 4) for c in coefs_d],
+              "form": "tuple" if cnt % 2 else "list", "xin": [], "deg": 2, "xlf": float(root) / 4, "xhf": float(slope)}
+        try:
+            if star:
+                n0, dd = planet_star_conjunction(A1 if cnt % 2 == 0 else tuple(A1), D1 if cnt % 2 == 0 else tuple(D1), A2[0], D2[0])
+            else:
+                args = (A1, D1, A2, D2) if cnt % 2 == 0 else (tuple(A1), tuple(D1), tuple(A2), tuple(D2))
+                n0, dd = planetary_conjunction(*args)
+            ev["n0"], ev["dd"], ev["oc"] = fx(float(n0)), fx(float(dd)), "ok"
+        except Exception as ex:
+            ev["n0"], ev["dd"], ev["oc"] = BAD, BAD, _oc(ex)
+        cnt += 1
+        yield ev
